@@ -46,6 +46,7 @@ Inductive ekind :=
 | KDupTaskIn        (* There is already a input paramter with the name *)
 | KDupCallOut       (* There is already a output parameter with the name *)
 | KArrayLen         (* Array length has to be specified by an integer *)
+| KNestedArray      (* The array … contains an array as element, arrays of arrays are not supported *)
 (* printed by the semantic checker *)
 | KUnknownType      (* Unknown data type … for task input variable *)
 | KNoStartTask      (* The file contains no 'productionTask' *)
@@ -281,6 +282,31 @@ Definition arraylen_errs (mk : nat -> ctx) (l : list (name * vtype)) : list err 
                        | _ => []
                        end) (index_from 0 l).
 
+(* Struct.parse_json (called by visitStruct_initialization): a list that is an element of a list
+   is reported — once per such element, with the literal's json_object context — and not stored;
+   the walk goes into objects (attribute values and array elements) but not into the reported
+   list.  (json.loads collapses duplicate keys before parse_json sees them; the count below is
+   over all occurrences of a key — literals with duplicate keys are outside what is compared.) *)
+Fixpoint nested_in (j : json) : nat :=
+  match j with
+  | JObj fs =>
+    (fix go (l : list (name * json)) : nat :=
+       match l with [] => 0 | (_, v) :: r => nested_in v + go r end) fs
+  | JArr es =>
+    (fix go (l : list json) : nat :=
+       match l with
+       | [] => 0
+       | e :: r => (match e with JArr _ => 1 | _ => nested_in e end) + go r
+       end) es
+  | _ => 0
+  end.
+
+Definition lit_visit_errs (ti : nat) (pi : list nat) (ins : list param) : list err :=
+  flat_map (fun kp => match snd kp with
+                      | PLit _ j => repeat (KNestedArray, CLitJson ti pi (fst kp)) (nested_in j)
+                      | _ => []
+                      end) (index_from 0 ins).
+
 Definition outs_visit_errs (ti : nat) (pi : list nat) (outs : outparams) : list err :=
   arraylen_errs (CStmtOutParam ti pi) outs
   ++ map (fun j => (KDupCallOut, CStmtOutParam ti pi j)) (dup_positions [] 0 outs).
@@ -289,10 +315,11 @@ Section VisitErrs.
   Variable ti : nat.
   Fixpoint stmt_visit_errs (pi : list nat) (s : stmt) : list err :=
     match s with
-    | SService _ _ outs => outs_visit_errs ti pi outs
-    | SCall c => outs_visit_errs ti pi (c_outs c)
+    | SService _ ins outs => lit_visit_errs ti pi ins ++ outs_visit_errs ti pi outs
+    | SCall c => lit_visit_errs ti pi (c_ins c) ++ outs_visit_errs ti pi (c_outs c)
     | SParallel cs =>
-      flat_map (fun ic => outs_visit_errs ti (pi ++ [fst ic]) (c_outs (snd ic))) (index_from 0 cs)
+      flat_map (fun ic => lit_visit_errs ti (pi ++ [fst ic]) (c_ins (snd ic))
+                          ++ outs_visit_errs ti (pi ++ [fst ic]) (c_outs (snd ic))) (index_from 0 cs)
     | SWhile _ body =>
       (fix go (i : nat) (l : list stmt) : list err :=
          match l with [] => [] | s1 :: r => stmt_visit_errs (pi ++ [i]) s1 ++ go (S i) r end) 0 body
